@@ -67,6 +67,12 @@ func (p *Parser) nextToken() error {
 	}
 
 	token, err := p.lexer.NextToken()
+	// A comment is white space (ISO 32000-1 7.2.3). Dropping it here keeps the
+	// two-token lookahead of parseNumber on real tokens, so that
+	// "12 % comment\n 0 R" is still an indirect reference.
+	for err == nil && token.Type == TokenComment {
+		token, err = p.lexer.NextToken()
+	}
 	if err != nil {
 		// Most callers advance without looking at the result. Leaving the old
 		// lookahead in place made them see the same token again and again
